@@ -420,6 +420,17 @@ fn cli_level(rep: &Report) {
             let mut c = Cmd::new(&a).env("KESTREL_PASSWORD", pw);
             c.stdin_path = Some(".".into());
             cases.push((format!("{}-n{}-stdin-is-directory", name, n), c, files.clone()));
+            // stdin is a socket whose peer dies: after the queued bytes one read fails with ECONNRESET, the next sees EOF
+            if n > 0 && n <= 70000 {
+                let data = files.iter().find(|f| f.0 == input).unwrap().1.clone();
+                for cut in [data.len(), data.len() / 2, 1] {
+                    let mut a = base.clone();
+                    a.extend_from_slice(&["-o", "out.bin"]);
+                    let mut c = Cmd::new(&a).env("KESTREL_PASSWORD", pw).stdin(&data[..cut]);
+                    c.stdin_socket_reset = Some(true);
+                    cases.push((format!("{}-n{}-stdin-socket-reset-after-{}", name, n, cut), c, files.clone()));
+                }
+            }
         }
     }
     let n = cases.len();
